@@ -572,6 +572,9 @@ func (env *SpecEnv) binary(x EBin) Val {
 		}
 		if l.S == sF || r.S == sF {
 			l, r = env.toF(l), env.toF(r)
+			if l.S != sF || r.S != sF {
+				return env.fail("cannot compare %s and %s as floats", exprString(x.L), exprString(x.R))
+			}
 			return env.binary(EBin{x.Op, valExpr{l}, valExpr{r}})
 		}
 		switch x.Op {
